@@ -5,10 +5,13 @@
    taken or installed onto a non-empty replica, every restart point.
    Guards, each the narrowest that is true of the code:
    * clean es          no committed op carries origins (finding S19) and no raw non-LogOp entry is injected;
-   * run_ok ev_forward hashicorp/raft installs a snapshot only on a replica that is not ahead of it (assumed of the
-                       dependency; checked on every observed trace);
-   * run_ok ev_atomic  nothing is applied on a replica between its FSM.Snapshot and the Persist of that snapshot
-                       (excludes exactly the shape of finding S23). *)
+   * run_ok ev_atomic  nothing is applied or restored on a replica between its FSM.Snapshot and the Persist of that snapshot
+                       (excludes exactly the shape of finding S23);
+   * run_ok ev_pinned  the special case of it that exactness needs: a snapshot restored on a replica between its FSM.Snapshot
+                       and Persist is not labelled below the pending one.
+   No assumption on the direction of an install: hashicorp/raft does install a snapshot on a replica that is ahead of it
+   (observed on the rig); `restore` moves `applied` to the label of the snapshot, forward or backward, and `applied` decreases
+   in no other way than by a restore or a restart. *)
 From V Require Import Base.Common Model.C01_RaftLog Proofs.C01_RaftLog.
 From V Require Import Model.C01_Check Proofs.C01_Monitor.
 Open Scope N_scope.
@@ -31,22 +34,37 @@ Print Assumptions raft_prefix_invariant_partial.
 
 (* without atomic snapshots: every cid either holds its value as of some position M >= applied, or is written again before M *)
 Theorem raft_catching_up_partial k es n nd :
-  clean es -> run_ok ev_forward (init k) es = true -> nth_error (nodes (final k es)) n = Some nd ->
+  clean es -> run_ok ev_pinned (init k) es = true -> nth_error (nodes (final k es)) n = Some nd ->
   catching_up (log (final k es)) (applied nd) (st nd).
 Proof. exact (catching_up_l k es n nd). Qed.
 Print Assumptions raft_catching_up_partial.
 
-(* a replica that has caught up - by replaying the log, restarting from its stores or installing a snapshot onto
-   whatever it held - holds exactly the result of the whole sequence (S1 repaired: no atomicity guard needed) *)
+(* a replica that has caught up - by replaying the log, restarting from its stores or installing a snapshot, older or newer,
+   onto whatever it held - holds exactly the result of the whole sequence (S1 repaired; entries applied between FSM.Snapshot
+   and Persist do no harm here; a snapshot labelled BELOW the pending one restored in that window does: raft_caught_up_exact_refuted) *)
 Theorem raft_caught_up_exact_partial k es n nd :
-  clean es -> run_ok ev_forward (init k) es = true -> nth_error (nodes (final k es)) n = Some nd ->
+  clean es -> run_ok ev_pinned (init k) es = true -> nth_error (nodes (final k es)) n = Some nd ->
   applied nd = length (log (final k es)) -> st nd = replay (log (final k es)).
 Proof. exact (caught_up_exact_l k es n nd). Qed.
 Print Assumptions raft_caught_up_exact_partial.
 
-(* the state is always served and no replica crashes *)
+(* atomic snapshots are pinned: the two theorems above hold under the guard of raft_prefix_invariant_partial as well *)
+Theorem raft_atomic_is_pinned es : forall cl, run_ok ev_atomic cl es = true -> run_ok ev_pinned cl es = true.
+Proof. exact (run_ok_impl ev_atomic ev_pinned atomic_pinned es). Qed.
+Print Assumptions raft_atomic_is_pinned.
+
+(* the position of a replica moves by one with an applied entry, to the label of the snapshot with a restore (in either
+   direction) and to 0 with a restart; nothing else moves it *)
+Theorem raft_applied_moves cl e n :
+  applied (getn n (step cl e)) = applied (getn n cl) \/ applied (getn n (step cl e)) = S (applied (getn n cl)) \/
+  (exists src k s, e = MRestore n src k /\ nth_error (snaps (getn src cl)) k = Some s /\ applied (getn n (step cl e)) = fst s) \/
+  (e = MRestart n /\ applied (getn n (step cl e)) = 0%nat).
+Proof. exact (applied_moves_l cl e n). Qed.
+Print Assumptions raft_applied_moves.
+
+(* the state is always served and no replica crashes: whatever is restored where and when *)
 Theorem raft_served_partial k es n nd :
-  clean es -> run_ok ev_forward (init k) es = true -> nth_error (nodes (final k es)) n = Some nd ->
+  clean es -> nth_error (nodes (final k es)) n = Some nd ->
   crashed nd = false /\ view nd <> None.
 Proof. exact (served_l k es n nd). Qed.
 Print Assumptions raft_served_partial.
@@ -100,14 +118,22 @@ Print Assumptions raft_offline_is_snapshot_partial.
 
 (* S23: with a late Persist a replica is, for a while, not the replay of ANY prefix *)
 Theorem raft_prefix_anytime_refuted :
-  exists k es n, clean es /\ run_ok ev_forward (init k) es = true /\
+  exists k es n, clean es /\ run_ok ev_pinned (init k) es = true /\
     forall m, st (getn n (final k es)) <> replay (firstn m (log (final k es))).
 Proof. exact prefix_anytime_refuted_l. Qed.
 Print Assumptions raft_prefix_anytime_refuted.
 
+(* S23 + backward install: FSM.Snapshot at position 2, a snapshot labelled 1 installed on the replica, only then Persist: the
+   snapshot labelled 2 lacks entry 1; a replica restarted from it has been given the whole log, serves a state, and misses a pin *)
+Theorem raft_caught_up_exact_refuted :
+  exists k es n, clean es /\ applied (getn n (final k es)) = length (log (final k es)) /\
+    st (getn n (final k es)) <> replay (log (final k es)).
+Proof. exact caught_up_exact_refuted_l. Qed.
+Print Assumptions raft_caught_up_exact_refuted.
+
 (* S19: a committed pin with origins is swallowed: the replica has applied the whole log, serves a state, and misses the pin *)
 Theorem raft_origins_swallowed_refuted :
-  exists k es n, run_ok ev_forward (init k) es = true /\ run_ok ev_atomic (init k) es = true /\
+  exists k es n, run_ok ev_atomic (init k) es = true /\
     applied (getn n (final k es)) = length (log (final k es)) /\ view (getn n (final k es)) = Some [] /\
     st (getn n (final k es)) <> replay (log (final k es)).
 Proof. exact origins_swallowed_refuted_l. Qed.
@@ -126,9 +152,18 @@ Print Assumptions raft_install_merge_refuted.
 
 (* ---- non-vacuity ---- *)
 Example guards_inhabited :
-  clean demo_events /\ run_ok ev_forward (init 2) demo_events = true /\ run_ok ev_atomic (init 2) demo_events = true /\
+  clean demo_events /\ run_ok ev_pinned (init 2) demo_events = true /\ run_ok ev_atomic (init 2) demo_events = true /\
   map fst (st (getn 1 (final 2 demo_events))) = [1] /\ applied (getn 1 (final 2 demo_events)) = 3%nat.
 Proof. exact demo_ok. Qed.
+(* a snapshot labelled 1 installed on a replica that has applied 2 entries (atomic snapshots): the replica is back at position 1
+   with the state of the first entry, and at position 2 with both after the next apply *)
+Example backward_install_ex :
+  clean backward_events /\ run_ok ev_atomic (init 2) backward_events = true /\
+  applied (getn 0 (final 2 (firstn 7 backward_events))) = 2%nat /\
+  applied (getn 0 (final 2 (firstn 8 backward_events))) = 1%nat /\
+  map fst (st (getn 0 (final 2 (firstn 8 backward_events)))) = [0] /\
+  map fst (st (getn 0 (final 2 backward_events))) = [0; 1].
+Proof. exact backward_ok. Qed.
 Example wf_pin_inhabited_ex : wf_pin (wpin 0 1) = true.
 Proof. exact (proj1 wf_pin_inhabited). Qed.
 
@@ -208,6 +243,10 @@ Theorem raft_ack_in_committer_pinset k cmds pre c n post :
               sget x (st nd) = effect (cmd_of cmds c).
 Proof. exact (ack_in_pinset_l k cmds pre c n post). Qed.
 Print Assumptions raft_ack_in_committer_pinset.
+(* This is a statement about the moment of the acknowledgement. Later the operation stays in the LOG at its index
+   (raft_ack_durable); the committer's PINSET may lose it for a while - a snapshot labelled below the entry installed on the
+   committer takes it back to that prefix until the entry is applied again (Example raft_ack_then_backward_install) - and holds
+   it again once the committer's position is past the entry (raft_prefix_invariant_partial + replay_last_write). *)
 
 (* non-vacuity: two replicas, pin / unpin, a snapshot installed onto the other replica, a restart, observations; every guard
    holds, the model agrees and the monitor accepts; the monitor rejects the same trace with a gap in the applied positions *)
@@ -236,6 +275,18 @@ Example raft_ack_examples :
   (model_eqb 2 cmds [OCommit 0; OApply 1 0; OAck 0 1] = true /\ spec_okb 2 cmds [OCommit 0; OApply 1 0; OAck 0 1] = true) /\
   (model_eqb 2 cmds [OCommit 0; OApply 0 0; OAck 0 1] = false /\ spec_okb 2 cmds [OCommit 0; OApply 0 0; OAck 0 1] = false) /\
   (model_eqb 1 cmds [OCommit 0; OApply 0 0; OAck 1 0] = false).
+Proof. repeat split; vm_compute; reflexivity. Qed.
+
+(* an acknowledged pin, then a snapshot labelled below it installed on the committer (replica 0 is at position 2, the snapshot
+   of replica 1 is labelled 1): the model and the monitor accept the trace; replica 0 serves the prefix of length 1, without
+   the acknowledged pin of cid 1, until it applies entry 1 again *)
+Example raft_ack_then_backward_install :
+  let es := [OCommit 0; OApply 1 0; OSnapReq 1 true; OPersist 1; OApply 0 0; OCommit 1; OApply 0 1; OAck 1 0;
+             OObs 0 (Some [wpin 0 1; wpin 1 1]); ORestore 0 1 0 1; OObs 0 (Some [wpin 0 1]); OApply 0 1;
+             OObs 0 (Some [wpin 0 1; wpin 1 1]);
+             OTrk 0 [TCall true 0 2 (-1)%Z 0 []; TCall true 1 2 (-1)%Z 0 []; TCall true 1 2 (-1)%Z 0 []]] in
+  model_eqb 2 monitor_demo_cmds es = true /\ trace_guard 2 monitor_demo_cmds es = true /\
+  tag_of monitor_demo_cmds es = 0 /\ spec_okb 2 monitor_demo_cmds es = true.
 Proof. repeat split; vm_compute; reflexivity. Qed.
 
 (* the S23 recogniser covers the two shapes it used to miss (each agrees with the model, fails the monitor, and is now tag 3):
